@@ -65,8 +65,8 @@ def genome_pipeline(ctx, replay, prop):
     ctx.rule = ("(1) MC_GenomeOps: every history of <= MaxOps operator applications (add-node, add-link, connect-sensors, toggle, "
                 "re-enable, weight change, multipoint and single-point crossover, generation boundary) from two start genomes "
                 "over a shared innovation registry, all clauses as invariants; (2) lineage traces of the REAL operators: a pool of "
-                "genomes (XOR start genome, a hand-built genome with bias / unconnected sensor / disabled / recurrent / nil-trait "
-                "genes, random genomes) is evolved by duplicate+mutate, mate(+mutate), in-place mutation and generation boundaries; "
+                "genomes (four segments per trace: XOR start genome, a hand-built genome with bias / unconnected sensor / disabled / "
+                "recurrent / twin / nil-trait genes, random genomes, a genome whose sensors are not first in id order) is evolved by duplicate+mutate, mate(+mutate), in-place mutation and generation boundaries; "
                 "every application is one event with projected operands before/after, registry and counters, validated line by "
                 "line by TLC against Genome.tla; (3) for C01 / C03 / C06 also the epoch traces of C02 (constructed populations "
                 "and every generation of real epochs under both executors, Trace_Epoch); " + RULES[prop][0])
@@ -87,8 +87,8 @@ def genome_pipeline(ctx, replay, prop):
             mc = ctx.tlc("MC_GenomeOps", cfg, timeout=7000)
             spec_must_hold(mc, cfg)
         n = 48 if thorough else 6
-        steps = 1000 if thorough else 250
-        jobs = [(ctx.seed * 1000 + i, steps, 3) for i in range(n)]
+        steps = 800 if thorough else 180
+        jobs = [(ctx.seed * 1000 + i, steps, 4) for i in range(n)]
     ctx.vh_binary(pkg="vh_genome")   # build once before the threads start
     with ThreadPoolExecutor(max_workers=max(2, min(CORES - 2, 12))) as ex:
         results = list(ex.map(lambda a: record_and_validate(ctx, a[0], *a[1]), enumerate(jobs)))
@@ -119,7 +119,7 @@ def genome_pipeline(ctx, replay, prop):
                     ctx.samples.append(brief(ev))
                 if len(ctx.samples) >= 2:
                     break
-    ctx.extra["scope"] = {"traces": len(results), "steps_per_segment": jobs[0][1] if jobs else 0, "segments": 3}
+    ctx.extra["scope"] = {"traces": len(results), "steps_per_segment": jobs[0][1] if jobs else 0, "segments": 4}
     if prop in ("C01", "C03", "C06"):
         # the population-level clauses of the same property: constructed populations and whole epochs (Trace_Epoch)
         import pipe_epoch
@@ -131,8 +131,8 @@ for _p in ("C01", "C03", "C04", "C05", "C06"):
 
 _NOTE = ("Model checking is exhaustive for histories of <= 3 operator applications from two start genomes (quick; <= 6 genes, pool <= 4) "
          "and, thorough, <= 4 applications from the 3-node start genome (pool <= 5, 1.6 M states) plus <= 3 applications with two "
-         "generation boundaries from the 4-node start genome with larger size caps. Conformance is by trace validation of seeded random operator histories (quick: 6 traces x 3 "
-         "segments x 250 driver steps; thorough: 48 x 3 x 1000), not exhaustive. Trusted: TLC, the projection of Go objects to "
+         "generation boundaries from the 4-node start genome with larger size caps. Conformance is by trace validation of seeded random operator histories (quick: 6 traces x 4 "
+         "segments x 180 driver steps plus six directed scenarios per segment; thorough: 48 x 4 x 800), not exhaustive. Trusted: TLC, the projection of Go objects to "
          "abstract records (harness/cmd/vh_genome/proj.go), float interning.")
 CHECKS = {
  "C01": dict(text="Well-formedness (ordering, no duplicate link, own endpoints / traits by object identity, id index, no sensor target, retained sensors and outputs, expressible) is an invariant of every genome in every history of MC_GenomeOps, and is evaluated by TLC on the result of every recorded application of the real duplicate / 11 mutators / 3 crossovers in lineage traces (epoch-level genomes are covered by the C02 traces).",
